@@ -129,11 +129,34 @@ def compare(q, impl_rows, mrows, exempt):
     return True
 
 
+def regen_symagg(c):
+    """Gen/SymAgg_gen.v from symmetric_aggregate.py + generator._has_fanout_joins (fail closed), then the translator's interpreter against
+    CPython running the real functions on the same inputs"""
+    import os
+    from translator import gen_symagg
+    try:
+        lib.write_if_changed(os.path.join(lib.COQ, "Gen", "SymAgg_gen.v"), gen_symagg.generate(lib.REPO))
+        c.obligation("translator: symmetric-aggregate SQL shapes (10 aggregation literals) and the _has_fanout_joins decision table (111 scripted scenarios) regenerated", True, "translator")
+    except Exception as e:
+        c.obligation("translator: symmetric-aggregate SQL shapes and the _has_fanout_joins decision table regenerated", False, "translator", repr(e)[-900:])
+        return
+    try:
+        a = gen_symagg.sym_shapes(lib.REPO) == gen_symagg.real_sym_shapes(lib.REPO)
+        b = gen_symagg.fanout_table(lib.REPO) == gen_symagg.real_fanout_table(lib.REPO)
+        c.obligation("translator validation: interpreted build_symmetric_aggregate_sql / _has_fanout_joins == the real functions under CPython on the same inputs", a and b, "translator",
+                     "shapes equal: %s, decision table equal: %s" % (a, b))
+    except Exception as e:
+        c.obligation("translator validation: interpreted build_symmetric_aggregate_sql / _has_fanout_joins == the real functions", False, "translator", repr(e)[-900:])
+
+
 def run(c):
-    c.trusted += ["modelled, not verified: Model/Plan.v (planning decisions) and Model/Join.v (joined query over wide rows, symmetric aggregates with the hash as a parameter) are hand-written; tied by executing the same cases",
+    c.trusted += ["translator/pyinterp.py + gen_symagg.py: definitional interpreter over a whitelisted Python subset (fail closed) extracts the SQL shape per aggregation literal and the fan-out decision table "
+                  "over scripted join paths; validated each run against CPython; the SQL text -> shape parser (regular expressions) is trusted",
+                  "modelled, not verified: Model/Plan.v (planning decisions) and Model/Join.v (joined query over wide rows, symmetric aggregates with the hash as a parameter) are hand-written; tied by executing the same cases",
                   "hypotheses of C02_metric_value: declared cardinalities hold in the data (card_truthful); for the symmetric form: unique non-NULL key, hash injective on the keys present (64-bit collisions are outside the model), "
                   "integer measure values below 2^39",
                   "DuckDB 1.3.2 (HASH, HUGEINT arithmetic, joins) as oracle; DOUBLE / DECIMAL measures are only exercised on the implementation (witness of C02-K3), not modelled"]
+    regen_symagg(c)
     c.build_props()
     n = 300 if c.tier == "quick" else 5000
     cases = []
